@@ -130,6 +130,9 @@ class MinimizerIMinuit(MinimizerBase):
         except RuntimeError:
             self._load_state()
             return None
+        except Exception:
+            self._load_state()  # return to the minimum if the cost function raises
+            raise
         _asymm_par_errs = np.zeros(shape=(self.num_pars, 2))
         for _par_name in self.parameter_names:
             _par_index = self.parameter_names.index(_par_name)
@@ -186,6 +189,9 @@ class MinimizerIMinuit(MinimizerBase):
                 self._func_wrapper_unpack_args(self.parameter_values)
             except RuntimeError:
                 _mat = None
+            except Exception:
+                self._load_state()  # return to the minimum if the cost function raises
+                raise
             self._load_state()
             self._par_cov_mat = _mat
             if _mat is not None:
